@@ -218,7 +218,10 @@ def forms_case(fa, cid, g, ir, rnd):
     for name, sch in forms:
         ops = run_ops(fa, sch, datum, seed, defaulted=defaulted, reader=rforms.get(name) if "rschema" in c else None, wbytes=wbytes)
         ops["form"] = name
-        again = fa.parse_schema(sch) if name == "parsed" else None
+        try:
+            again = fa.parse_schema(sch) if name == "parsed" else None
+        except Exception:  # noqa: BLE001 - parsing an already parsed schema failed: not "returned unchanged"
+            again = ("<<raised>>",)
         # "returns it unchanged": the same object for records (which carry the parsed marker), an equal schema otherwise
         ops["identity"] = (again is sch or (not isinstance(sch, dict) or "__fastavro_parsed" not in sch) and again == sch) if name == "parsed" else True
         c["forms"].append(ops)
